@@ -136,11 +136,11 @@ let h_counts = Array.make 5 0
 let classify extras og = let k = int_of_nat (why_not_H og extras) in h_counts.(min k 4) <- h_counts.(min k 4) + 1; k
 
 (* ---- translation validation of one emitted parser ---- *)
-let check_tv x orig osexp shown =
+let check_tv ?(text = "") x orig osexp shown =
   let extras = x = "1" in
   let og = ogrammar_of osexp in
   let u = !utable in
-  let case = Printf.sprintf "x=%s og=%s" x osexp in
+  let case = Printf.sprintf "x=%s og=%s%s" x osexp (if text = "" then "" else " g=" ^ text) in
   let names = List.map (fun r -> string_of_bytes r.oname) og in
   let n = List.length og in
   let called = idents_of_grammar orig in
@@ -152,7 +152,11 @@ let check_tv x orig osexp shown =
   let parts = List.map kv (split_on_bar shown) in
   let get k = try List.assoc k parts with Not_found -> "<missing>" in
   let bad = ref false in
-  let cmp what impl expected = if impl <> expected && not !bad then begin bad := true; report "model" (case ^ " at=" ^ what) impl expected end in
+  let cmp what impl expected =
+    if impl <> expected then begin
+      Printf.printf "DIFF\t%s\n" what;
+      if not !bad then begin bad := true; report "model" (case ^ " at=" ^ what) impl expected end
+    end in
   cmp "enum" (get "enum") (String.concat "," ((if uses_eoi then ["EOI"] else []) @ names));
   cmp "all_rules" (get "all") (String.concat "," names);
   cmp "hidden::skip" (get "skip") (show_prog (gen_skip og));
